@@ -667,3 +667,8 @@ func VerifSrcSetURLs(srcset string) []string {
 	dom.SetAttribute(img, "srcset", srcset)
 	return domutil.GetSrcSetURLs(img)
 }
+
+// VerifDocumentElement: the element NewContentExtractor selects for root.
+func VerifDocumentElement(root *html.Node) *html.Node {
+	return extractor.NewContentExtractor(root, nil, nil).VerifDocumentElement()
+}
